@@ -415,6 +415,97 @@ func c15Vanishing(n int, ks []int, msize uint32, dotu bool) Scenario {
 	}}
 }
 
+// c15LongTargets: entries far larger than a name allows - symbolic links whose target
+// (carried in the 9P2000.u stat record) is 0..hi bytes long, so that the record sizes
+// sweep every value up to well beyond 1024. Each directory {a, L -> target, z} is listed
+// with a large count and with the smallest count that fits its largest entry.
+func c15LongTargets(msize uint32, lo, hi int, dotu bool) Scenario {
+	name := fmt.Sprintf("dirread symlink-target-lengths %d..%d msize=%d dotu=%v", lo, hi, msize, dotu)
+	return Scenario{Name: name, Run: func(rc *RunCtx) *Result {
+		res := &Result{Exhaustive: true}
+		base, root := scratchDir("c15l")
+		defer os.RemoveAll(base)
+		seen := map[string]bool{}
+		fail := func(sig, msg string) {
+			if !seen[sig] && len(res.Findings) < 6 {
+				seen[sig] = true
+				res.Findings = append(res.Findings, Finding{Sig: "C15/" + sig, Msg: msg + fmt.Sprintf(" (msize %d, dotu %v)", msize, dotu)})
+			}
+		}
+		os.MkdirAll(filepath.Join(root, "dir"), 0o755)
+		os.WriteFile(filepath.Join(root, "dir", "a"), []byte("a"), 0o644)
+		os.WriteFile(filepath.Join(root, "dir", "z"), []byte("zz"), 0o644)
+		body := func() {
+			h := newUfsH(root, msize, dotu)
+			cl := h.Connect()
+			ver := "9P2000"
+			if dotu {
+				ver = "9P2000.u"
+			}
+			cl.Version(msize, ver)
+			cl.Rpc(tattach(1, 0, wire.NOFID, "", uint32(os.Geteuid()), dotu))
+			cl.Rpc(twalk(2, 0, 1, "dir"))
+			if r := cl.Rpc(&wire.Msg{Type: wire.Topen, Tag: 3, Fid: 1, Mode: 0}); r == nil || r.Type != wire.Ropen {
+				fail("setup", "cannot open the directory")
+				return
+			}
+			for t := lo; t <= hi; t++ {
+				if rc.Expired() {
+					res.Exhaustive = false
+					res.CapHit = "internal deadline"
+					return
+				}
+				os.Remove(filepath.Join(root, "dir", "L"))
+				// the target: path elements of at most 200 bytes
+				var tb []byte
+				for len(tb) < t {
+					if len(tb)%200 == 199 {
+						tb = append(tb, '/')
+					} else {
+						tb = append(tb, 'x')
+					}
+				}
+				if t > 0 {
+					if err := os.Symlink(string(tb), filepath.Join(root, "dir", "L")); err != nil {
+						continue
+					}
+				}
+				want := "a,z"
+				if t > 0 {
+					want = "L,a,z"
+				}
+				all, sizes, bad := c15List(cl, dotu, 1, msize-24, 10)
+				res.Evals++
+				maxE := 0
+				for _, s := range sizes {
+					if s > maxE {
+						maxE = s
+					}
+				}
+				sort.Strings(all)
+				if bad != "" || strings.Join(all, ",") != want {
+					fail("long-target/listing", fmt.Sprintf("symlink target of %d bytes (largest record %d bytes): full-size listing returned %v %s", t, maxE, all, bad))
+					continue
+				}
+				for _, cnt := range []int{maxE, maxE + 1, maxE + 60} {
+					got, _, bad := c15List(cl, dotu, 1, uint32(cnt), 11)
+					res.Evals++
+					sort.Strings(got)
+					if bad != "" || strings.Join(got, ",") != want {
+						fail("long-target/entries-not-exactly-once", fmt.Sprintf("symlink target of %d bytes (largest record %d bytes), count %d: listing returned %v %s", t, maxE, cnt, got, bad))
+					}
+				}
+			}
+		}
+		x := vs.Run(nil, body, vs.Options{Horizon: 500000000})
+		if len(x.Panics) > 0 {
+			fail("panic/"+x.Panics[0].Frame, "panic: "+x.Panics[0].Value)
+		}
+		res.Nontrivial = res.Evals
+		return res
+	}}
+}
+
 func c15Scenarios(tier string) []Scenario {
 	var out []Scenario
 	lens := []int{1, 2, 17, 255}
@@ -455,6 +546,15 @@ func c15Scenarios(tier string) []Scenario {
 		return l
 	}
 	out = append(out, c15Vanishing(3, all(3), 512, true), c15Vanishing(40, all(40), 4120, false))
+	for lo := 0; lo < 1200; lo += 300 {
+		out = append(out, c15LongTargets(8216, lo, lo+299, true))
+	}
+	out = append(out, c15LongTargets(8216, 0, 600, false))
+	if tier == "thorough" {
+		for lo := 1200; lo < 4000; lo += 400 {
+			out = append(out, c15LongTargets(8216, lo, lo+399, true))
+		}
+	}
 	out = append(out, c15Vanishing(1030, []int{0, 1, 511, 1022, 1023, 1024, 1029}, 8216, true), c15Vanishing(2050, []int{5, 1023, 1024, 2047, 2048, 2049}, 65560, false))
 	if tier == "thorough" {
 		out = append(out, c15Vanishing(300, all(300), 4120, true), c15Vanishing(4100, []int{0, 1023, 1024, 2047, 3000, 4095, 4096, 4099}, 65560, true))
@@ -470,7 +570,7 @@ func c15Scenarios(tier string) []Scenario {
 func init() {
 	register(&Property{ID: "C15", Level: "exploration",
 		Technique: "bounded-exhaustive enumeration of directory shapes and read counts against the real Ufs, replies decoded record by record with the independent codec and compared with os.ReadDir",
-		Rule:      "directories with 0..3 (thorough 0..5 all, 6 every third) entries whose name lengths are every multiset over {1,2,17,255}, plus 50-, 400- (thorough 3000-) entry directories; msize {512,4120} (thorough + 360, 1024, 65560), both dialects; for each: every count from the largest entry size to the listing size + 1 read by the offset rule to the zero-length reply, short counts at every record boundary, restart at offset 0 after every prefix, and after an entry was created / removed with the directory's mtime put back (coarse timestamps), File.Readdir(0); one entry removed by the host while the server lists the directory (between the names being read and the entry being examined, at every position for small directories and around multiples of 1024 for directories of 1030..4100 entries): all the others listed exactly once. non-trivial = complete listings / reads compared",
+		Rule:      "directories with 0..3 (thorough 0..5 all, 6 every third) entries whose name lengths are every multiset over {1,2,17,255}, plus 50-, 400- (thorough 3000-) entry directories; msize {512,4120} (thorough + 360, 1024, 65560), both dialects; for each: every count from the largest entry size to the listing size + 1 read by the offset rule to the zero-length reply, short counts at every record boundary, restart at offset 0 after every prefix, and after an entry was created / removed with the directory's mtime put back (coarse timestamps), File.Readdir(0); symbolic links with targets of every length 0..1199 (thorough ..3999) bytes, i.e. stat records of every size up to beyond 1024 (thorough 4096) bytes; one entry removed by the host while the server lists the directory (between the names being read and the entry being examined, at every position for small directories and around multiples of 1024 for directories of 1030..4100 entries): all the others listed exactly once. non-trivial = complete listings / reads compared",
 		Assumptions: []string{"the host file system and package os are the reference; a directory is skipped at an msize that cannot carry its largest entry"},
 		Scenarios:   c15Scenarios, QuickS: 100, ThoroughS: 900})
 }
